@@ -107,6 +107,8 @@ def _observables(with_state, shots):
     import emu_mps as m
 
     obs = [m.Occupation(evaluation_times=[0.5, 1.0]), m.CorrelationMatrix(evaluation_times=[1.0]), m.Energy(evaluation_times=[0.5, 1.0])]
+    # a second instance of the per-atom observables under a tag suffix: it has to be un-permuted exactly like the plain one
+    obs += [m.Occupation(evaluation_times=[1.0], tag_suffix="again"), m.CorrelationMatrix(evaluation_times=[1.0], tag_suffix="again")]
     if shots:
         obs.append(m.BitStrings(evaluation_times=[1.0], num_shots=shots))
     if with_state:
@@ -141,6 +143,9 @@ def _by_name(res):
     out["occ"] = occ
     out["corr"] = {(a, b): float(c[i, j]) for i, a in enumerate(order) for j, b in enumerate(order)}
     out["energy"] = {t: float(np.real(runner.to_np(runner.get_at(res, "energy", t)))) for t in (0.5, 1.0)}
+    v2 = runner.to_np(runner.get_at(res, "occupation_again", 1.0)).astype(float)
+    c2 = runner.to_np(runner.get_at(res, "correlation_matrix_again", 1.0)).astype(float)
+    out["suffix_diff"] = max(float(np.abs(v2 - v).max()), float(np.abs(c2 - c).max()))
     return out
 
 
@@ -209,6 +214,8 @@ def run_case(case):
             if list(res.atom_order) != spec["ids"]:
                 return result(False, sig="atom_order", msg=f"{label}: atom_order {res.atom_order} != register order {spec['ids']}", outcome="order")
             got = _by_name(res)
+            if got["suffix_diff"] > 1e-12:
+                return result(False, sig="tag-suffix|not-unpermuted", msg=f"{label}: Occupation / CorrelationMatrix requested a second time under tag_suffix='again' differ from the plain ones by {got['suffix_diff']:.3e} (same state, same time)", outcome="suffix")
             d = _diff(base, got)
             worst = max(worst, d)
             if d > tol:
